@@ -21,6 +21,8 @@ pub const NUM_SCRIPTS: u64 = 15;
 const SHARDS: u64 = 8;
 const KINDS: u64 = 6; // eof, read error, garbage, write error, server close, handle drop
 
+/// malformed without a line end: no valid line begins like this, so nothing that may still come can repair it
+const GARBAGE_NO_LF: &[&[u8]] = &[b"\x01\x02\x03", b"changed= player"];
 const GARBAGE: &[&[u8]] = &[b"!!\n", b"\xff\xfe\n", b"OK MPD 0.23.5\n", b"ACK garbage\n", b": no key\n", b"key without separator\n"];
 
 pub fn base_script(idx: u64, variant: u64) -> Scenario {
@@ -62,7 +64,7 @@ pub fn base_script(idx: u64, variant: u64) -> Scenario {
             s.callers = vec![(ms(20), vec![Step::Do(Req::Raw { shape: 0 }), Step::Think(d / 2), Step::Do(Req::Raw { shape: 1 }), Step::Think(d * 2), Step::Do(Req::Raw { shape: 0 })])];
         }
         8 => {
-            s.world.art = Some(ArtStore { embedded: Some(((0..150u32).map(|x| (x % 251) as u8).collect(), Some("image/png".into()))), cover: None, limit: 64, readpicture_supported: true, embedded_ack: 0, cover_ack: 0, ack_after_partial_output: false });
+            s.world.art = Some(ArtStore { embedded: Some(((0..150u32).map(|x| (x % 251) as u8).collect(), Some("image/png".into()))), cover: None, limit: 64, readpicture_supported: true, embedded_ack: 0, cover_ack: 0, ack_after_partial_output: false, ack_from_offset: None });
             s.callers = vec![(ms(20), vec![Step::Do(Req::AlbumArt { uri: "a b.mp3".into() })])];
         }
         9 => {
@@ -189,7 +191,7 @@ fn check(acc: &mut Acc, case: u64, sc: &Scenario, inj: &Injected, out: &Outcome,
             continue;
         }
         // which call does this unit belong to?
-        let first = u.lines.iter().find(|l| l.starts_with(b"vreq ") || l.starts_with(b"vfail "));
+        let first = u.lines.iter().find(|l| l.starts_with(b"vreq ") || l.starts_with(b"v_fail "));
         let Some(first) = first else { continue };
         let toks: Vec<usize> = String::from_utf8_lossy(first).split(' ').skip(1).filter_map(|t| t.parse().ok()).collect();
         if toks.len() < 2 {
@@ -389,6 +391,9 @@ impl Property for C08 {
                     for gb in GARBAGE {
                         positions.push(Injected::World(Fault::GarbageAt(ls, gb.to_vec())));
                     }
+                    for gb in GARBAGE_NO_LF {
+                        positions.push(Injected::World(Fault::GarbageMuteAt(ls, gb.to_vec())));
+                    }
                 }
             }
             3 => positions.extend((0..=base.write_calls).map(|j| Injected::World(Fault::WriteErrFrom(j)))),
@@ -428,7 +433,7 @@ impl Property for C08 {
         Meta {
             level: "fault_enumeration",
             rule: format!(
-                "{} base scripts (idle with notifications, one request, three queued callers, pipelined, command list, failing list, notification racing a request, requests inside/after the re-idle window, chunked album art, big reply, password handshake, cancellation, typed lists, crossing noidle, 100 changes piled up in an events receiver the application does not poll) x transport variants are first run fault-free to measure the server->client stream length L, the number of write calls W and the instants at which anything happened; then EVERY position is enumerated: end of stream after byte k (k = greeting..L), persistent read error after byte k, each of 6 malformed lines spliced at every line start, persistent write error from write call j (j = 0..W), server-side close and drop of all client handles at every event instant (+-1 us); plus random fault plans on random scenarios; oracle per session: nothing pending at a far virtual deadline, replies completely received resolve Ok with the right content, every call ends, is_connection_closed() true at quiescence, a later request resolves with an error, at most one closing event and nothing after it, event stream ends, a non-clean failure reaches the in-flight caller (or any caller / a closing event if none was in flight), transport dropped; non-trivial = fault session in which a request was queued or in flight; distinct by (script, fault kind, loop state at the fault, open calls)",
+                "{} base scripts (idle with notifications, one request, three queued callers, pipelined, command list, failing list, notification racing a request, requests inside/after the re-idle window, chunked album art, big reply, password handshake, cancellation, typed lists, crossing noidle, 100 changes piled up in an events receiver the application does not poll) x transport variants are first run fault-free to measure the server->client stream length L, the number of write calls W and the instants at which anything happened; then EVERY position is enumerated: end of stream after byte k (k = greeting..L), persistent read error after byte k, each of 6 malformed lines spliced at every line start, each of 2 malformed byte strings WITHOUT a line end written at every line start by a server that then falls silent, persistent write error from write call j (j = 0..W), server-side close and drop of all client handles at every event instant (+-1 us); plus random fault plans on random scenarios; oracle per session: nothing pending at a far virtual deadline, replies completely received resolve Ok with the right content, every call ends, is_connection_closed() true at quiescence, a later request resolves with an error, at most one closing event and nothing after it, event stream ends, a non-clean failure reaches the in-flight caller (or any caller / a closing event if none was in flight), transport dropped; non-trivial = fault session in which a request was queued or in flight; distinct by (script, fault kind, loop state at the fault, open calls)",
                 scripts_for(cfg.tier).len()
             ),
             nontrivial_set: "nontrivial",
@@ -462,7 +467,7 @@ impl C08 {
         let mut garbage_at = None;
         match inj {
             Injected::World(f) => {
-                if let Fault::GarbageAt(k, _) = f {
+                if let Fault::GarbageAt(k, _) | Fault::GarbageMuteAt(k, _) = f {
                     garbage_at = Some(*k);
                 }
                 sc.world.fault = f.clone();
